@@ -101,7 +101,10 @@ class C16(Prop):
                         plain = [k for k, _ in c["values"] if k not in outs and k not in cfg["select"]]
                         if rng.random() < 0.15 and plain:
                             cfg["select"] = cfg["select"] + [rng.choice(plain)]      # a plain input is not selectable: must be rejected
+                        if plain and rng.random() < 0.08:
+                            cfg["select"] = [rng.choice(plain)]                     # only a plain input, in whatever collection type
                         cfg["selectAsTuple"] = rng.random() < 0.5
+                        cfg["selectAsSet"] = len(cfg["select"]) == 1 and rng.random() < 0.5
                     ops["rtselect"] = 1
             cfg["onMissing"] = rng.choice(["ignore", "warn", "error"])
             cfg["errMode"] = rng.choice(["raise", "continue"])
@@ -134,14 +137,19 @@ class C16(Prop):
             g = graphs[-1]
             eff = g
             sel = case["cfg"].get("select")
+            invalid_select = False
             if sel is not None and sel != "**":
-                eff = g.select(*sel)
+                try:
+                    eff = g.select(*sel)
+                except Exception:  # noqa: BLE001 - the selection names something that is not an output: the run must reject it too
+                    invalid_select = True
             spec = spec_obs(eff)
         except Exception as e:
             return {"status": "build-error", "detail": f"{type(e).__name__}: {e}"[:200]}
         values = self._values_from_spec(spec, dict((k, v) for k, v in case["known"]))
         obs = impl.run_case(case["program"], None, values, case["cfg"], case["runner"], env=env, graphs=graphs, record_events=False)
         obs["values_used"] = values
+        obs["invalid_select"] = invalid_select
         obs["graph_outputs"] = list(g.outputs)
         obs["inner_exposed"] = [[n.name, list(n.outputs)] for n in g.nodes.values() if type(n).__name__ == "GraphNode"]
         return obs
@@ -152,6 +160,10 @@ class C16(Prop):
         program = case["program"]
         root = program[-1]
         cfg = case["cfg"]
+        if obs.get("invalid_select"):
+            if not (obs["status"] == "failed" and obs.get("raised") and "GraphConfigError" in str(obs.get("error"))):
+                return f"a run-time select naming something that is not an output ({cfg.get('select')}) was not rejected: {obs['status']} {obs['values']}"
+            return None
         # (a) entry points: only entry nodes and nodes downstream of them execute
         if root.get("entrypoints") is not None:
             allowed = downstream(program, root["entrypoints"])
@@ -226,12 +238,15 @@ class C16(Prop):
         return m
 
     def compare(self, case: dict, i: Any, m: Any) -> str | None:
+        if i.get("invalid_select"):
+            # the selection names a non-output: the model rejects it (build-error), the implementation must have rejected the run (oracle)
+            return None if m["status"] == "build-error" else f"the model accepts the selection {case['cfg'].get('select')} that graph.select() rejects"
         if i["status"] == "build-error" or m["status"] == "build-error":
             return None if i["status"] == m["status"] else f"status: impl={i['status']} ({i.get('detail')}) model={m['status']}"
         if i["values_used"] != m["values_used"]:
             return f"inputs derived from the reported spec differ: impl={i['values_used']} model={m['values_used']}"
         for k in ("status", "values", "error", "raised", "warnings"):
-            if i.get(k) != m.get(k):
+            if impl.differ(i.get(k), m.get(k)):
                 return f"{k}: impl={i.get(k)!r} model={m.get(k)!r}"
         ic, mc = impl.sort_calls(i["calls"]), impl.sort_calls(m["calls"])
         if ic != mc:
